@@ -467,7 +467,11 @@ def check_C05(tier, seed, replay=None):
 
 
 def check_C06(tier, seed, replay=None):
-    return ref_family_check("C06", tier, seed, [("func", 4000), ("epoch:func", 600), ("hist", 500)], [("func", 80000), ("deep", 20000), ("epoch:func", 15000), ("hist", 10000)])
+    corr = _corr_generic("funccases", "C06", "Func.func_step / clamp_fn / scalar_binop_step / scalar_step on the operand stream of the engine's own "
+                         "operator tree vs the engine's result for abs, sqrt, unary minus, clamp, clamp_min, clamp_max (literals incl. NaN, +-Inf, "
+                         "max < min), vector/scalar arithmetic and comparisons (both sides, bool) and scalar() over selectors; primitive floats",
+                         40, 400, shards_quick=8, shards_thorough=32)
+    return ref_family_check("C06", tier, seed, [("func", 4000), ("epoch:func", 600), ("hist", 500)], [("func", 80000), ("deep", 20000), ("epoch:func", 15000), ("hist", 10000)], corr=corr)
 
 
 def check_C18(tier, seed, replay=None):
